@@ -31,14 +31,14 @@ case "${1:-}" in
   --selftest)
     build 0
     shift
-    exec "$B/simcheck" -selftest ${1:+-prop "$1"} ${2:+-selftest-n "$2"};;
+    exec "$B/simcheck" -selftest -tmp "$B/tmp" -replays "$B/tmp" ${1:+-prop "$1"} ${2:+-selftest-n "$2"};;
   C[0-9]*)
     P=$1; shift
     R=0; needs_race "$P" && R=1
     build $R
     case "${1:-quick}" in
-      --replay) exec "$B/simcheck" -replay "$2" -racebin "$B/simcheck.race";;
-      quick|thorough) T=$1; shift; exec "$B/simcheck" -prop "$P" -tier "$T" -racebin "$B/simcheck.race" "$@";;
+      --replay) exec "$B/simcheck" -replay "$2" -racebin "$B/simcheck.race" -tmp "$B/tmp";;
+      quick|thorough) T=$1; shift; exec "$B/simcheck" -prop "$P" -tier "$T" -racebin "$B/simcheck.race" -evidence "$V/evidence" -replays "$V/replays" -known "$V/known_findings.json" -tmp "$B/tmp" "$@";;
       *) echo "usage" >&2; exit 2;;
     esac;;
   *) echo "usage: $0 --setup | Cxx quick|thorough | Cxx --replay file | --selftest" >&2; exit 2;;
